@@ -10,6 +10,8 @@ CONSTANTS
   Expiry = FALSE
   CompactAfter = 0
   DelFaultKinds = {}
+  StreamBatch = 1
+  StreamRestarts = FALSE
   GenHist = FALSE
 INIT Init
 NEXT Next
